@@ -131,7 +131,9 @@ _ADD = {
  "C06": "The destination of compile is absent, shorter or much longer than the new object (the file must be exactly the object either way); program output is also compared with and without --minimal.",
  "C07": "Also: the SMALLEST programs around each field boundary (label on the first, reference on the last statement and vice versa), images ending just below/at/above the top of memory, and a real `lace watch` session "
         "whose successive texts fail in different stages and define the same labels again (each re-check's verdict must be that of Assembler!Accepts).",
- "C08": "Also: destination names that are not valid UTF-8 or long with multi-byte characters, and a stdout that accepts no data (/dev/full): the outcome must still be one of the two the property allows.",
+ "C08": "Compile.tla states the protocol as a transition system over system-call events with a fault at every fallible step; TLC (MC_Compile) checks AllOrNothing/NoLitter on it and must reject the two earlier designs "
+        "(create-then-write; fatal progress messages) kept as configurations. Fault kinds added: a regular destination that cannot be written (RLIMIT_FSIZE = 0) and a stdout that stops accepting data after the first message; "
+        "the strace log of every run is replayed through Compile!Step (drift is reported in the evidence, not as a violation). Also: destination names that are not valid UTF-8 or long with multi-byte characters, and a stdout that accepts no data (/dev/full): the outcome must still be one of the two the property allows.",
  "C09": "Also at the command line: `lace run p` against `lace debug p --command <non-mutating script ending in quit>` with the program's input on stdin (Trace_Cli!DbgPairOk: same stdout, line breaks aside, and same exit status).",
  "C14": "Transport events also count register dumps, so that a lost or invented command without echo is visible.",
  "C15": "Malformed eval texts are derived systematically from well-formed instructions: one operand missing, one token too many (registers, literals, strings, labels, directives incl. .end), one operand of the wrong kind.",
